@@ -18,7 +18,7 @@ def _is_noreturn_call(s):
 def falls_through(s):
     """False only when no path through s completes normally (conservative: True
     when unsure)."""
-    if s is None or not s:
+    if s is None or not s.get('kind'):
         return True
     k = s.get('kind')
     if k in ('ReturnStmt', 'BreakStmt', 'ContinueStmt', 'CXXThrowExpr'):
@@ -81,7 +81,7 @@ def if_parts(s):
 
 
 def _nz(n):
-    return n if n else None
+    return n if (n and n.get('kind')) else None
 
 
 def for_parts(s):
